@@ -45,3 +45,7 @@ C('C17', 'runtime monitor of the eq=>hash implication and differential oracles (
 C('C20', 'three-path differential (ffi.new initializer / whole-object assignment / leaf-wise assignment into Python-allocated zero memory) on generated aggregates; ASan 0xbe malloc fill exposes missing zero-fill',
   'Exploration: aggregates from the C01 generator (bitfields, anonymous and nested members, arrays, unions) and arrays of them x random nested initializers (short lists/tuples, dicts, bytes, cdata copies, union sequences, invalid ones); flexible-array structs: allocation size, sizeof(p[0]), bytes vs assignment into a same-length target.',
   'long double members are not generated (their 6 padding bytes are not defined); list-order across anonymous members only compared between new and assignment. Known finding: over-long assignment to an owned flexible array member overflows.')
+
+C('C21', 'stateful reference model (reachability + expected destructor/free counts) driven in lock-step with random histories; callbacks monitored at the moment they run; ASan decides use-after-free/double free',
+  'Exploration: random 40-operation histories over ffi.new objects, p[0] aliases, ffi.gc wrappers (chains, reference cycles through the destructor, gc(p,None)), release/with/re-release, new_allocator allocations, from_buffer exports of a resizable bytearray, handles; gc.collect() after every step on half of the histories; exactly-once, never-while-reachable, export-lock and handle identity/distinctness checked against the model.',
+  'Reachability model assumes CPython refcounting and cffi\'s documented keep-alive edges; releasing an object that live aliases/wrappers still use is not generated (user error).')
